@@ -246,18 +246,39 @@ func New(cfg Config) *World {
 		ChainID: cfg.ChainID, Height: 1, Time: cfg.GenesisTime,
 		ProposerAddress: w.Vals[0].Pub.Address().Bytes(),
 	}
-	if _, err := app.FinalizeBlock(&abci.RequestFinalizeBlock{
-		Height: 1, Time: cfg.GenesisTime, Hash: BlockHash(1), ProposerAddress: hdr.ProposerAddress,
-	}); err != nil {
-		panic(err)
-	}
-	if _, err := app.Commit(); err != nil {
-		panic(err)
-	}
+	// A failure of block 1 (as opposed to a genesis that InitChain refuses) is reported with a typed
+	// panic value so that a caller can tell the two apart (fam_block does).
+	func() {
+		defer func() {
+			if p := recover(); p != nil {
+				if b, ok := p.(Block1Failure); ok {
+					panic(b)
+				}
+				panic(Block1Failure{Detail: fmt.Sprint(p), Panicked: true})
+			}
+		}()
+		if _, err := app.FinalizeBlock(&abci.RequestFinalizeBlock{
+			Height: 1, Time: cfg.GenesisTime, Hash: BlockHash(1), ProposerAddress: hdr.ProposerAddress,
+		}); err != nil {
+			panic(Block1Failure{Detail: err.Error()})
+		}
+		if _, err := app.Commit(); err != nil {
+			panic(Block1Failure{Detail: "commit: " + err.Error()})
+		}
+	}()
 	w.BaseHeader = hdr
 	w.Base = app.NewUncachedContext(false, hdr).WithHeaderHash(BlockHash(1))
 	return w
 }
+
+// Block1Failure is the panic value of New when the genesis was accepted by InitChain but the first
+// (empty) block did not execute: FinalizeBlock/Commit returned an error or panicked.
+type Block1Failure struct {
+	Detail   string
+	Panicked bool
+}
+
+func (b Block1Failure) Error() string { return "world: block 1 failed: " + b.Detail }
 
 // Close removes the home directory.
 func (w *World) Close() { _ = os.RemoveAll(w.Dir) }
